@@ -463,6 +463,13 @@ Proof.
   - exists p'. split; [exact Hin|]. split; [lia | auto].
 Qed.
 
+Lemma in_rung_mark_promoted L m l :
+  existsb (fun e : Z * bool => fst e =? m) (mark_promoted L l) = existsb (fun e : Z * bool => fst e =? m) l.
+Proof.
+  unfold mark_promoted. induction l as [|[a b] l IH]; cbn; [reflexivity|]. rewrite IH.
+  destruct (a =? L); reflexivity.
+Qed.
+
 Lemma lookup_note k k' v rp :
   lookup_rep k (note_rep k' v rp) =
   match lookup_rep k rp with Some x => Some x | None => if key_eqb k k' then Some v else None end.
@@ -525,7 +532,21 @@ Record Good (s : sstate) (rp : list ((Z * Z) * Q)) (t : Z) (rec : tr) : Prop := 
   g_stop : sty cfg = Stopping -> running rec = None;
   g_rungs : sty cfg = Promotion -> forall L p, In (L, p) (in_rungs rec) ->
             In L (rung_levels cfg) /\ L <= hi rec /\
-            (p = false -> dec rec <> CONTINUE /\ hi rec = L /\ exists l, lur rec = Some l /\ L <= l)
+            (p = false -> dec rec <> CONTINUE /\ hi rec = L /\ exists l, lur rec = Some l /\ L <= l);
+  (* --- which levels are in the data (searcher_data policy) --- *)
+  g_in_le : forall L p, In (L, p) (in_rungs rec) -> In L (rung_levels cfg) /\ L <= hi rec;
+  g_in_lab : forall L p, In (L, p) (in_rungs rec) -> is_labeled s t L = true;
+  g_keep : forall r v, reported rec = Some (r, v) ->
+           (keep_case rec = true -> in_rung rec r = true \/ max_t cfg <= r) /\ (keep_case rec = false -> in_rung rec r = false);
+  g_pol : forall r c, In ((t, r), c) (obs s) ->
+          match pol cfg with
+          | AllData => True
+          | Rungs => rungs_or_max r \/ (dec rec <> CONTINUE /\ exists v, reported rec = Some (r, v))
+          | RungsAndLast => in_rung rec r = true \/ exists v, reported rec = Some (r, v)
+          end;
+  g_present : forall r, lookup_rep (t, r) rp <> None ->
+              pol cfg = AllData \/ (pol cfg = Rungs /\ rungs_or_max r) -> is_labeled s t r = true;
+  g_dense : forall x, 1 <= x <= hi rec -> lookup_rep (t, x) rp <> None
 }.
 
 Definition Absent (s : sstate) (rp : list ((Z * Z) * Q)) (t : Z) : Prop :=
@@ -563,6 +584,10 @@ Proof.
   - intros HP p H. apply g_pend_rungs0; [exact HP | apply Hp; exact H].
   - intros r v H. rewrite Hr, HL. apply g_rep0. exact H.
   - intros r H. apply g_reps0. rewrite <- Hr. exact H.
+  - intros L p H. rewrite HL. eauto.
+  - intros r c H. apply (g_pol0 r c). apply Ho. exact H.
+  - intros r H H2. rewrite HL. apply g_present0; [rewrite <- Hr; exact H | exact H2].
+  - intros x H. rewrite Hr. auto.
 Qed.
 
 Lemma Absent_ext t s s' rp rp' : same_for t s s' rp rp' -> Absent s rp t -> Absent s' rp' t.
@@ -706,6 +731,8 @@ Proof.
     + cbn. discriminate.
     + intros HS L p Hin. destruct (g_rungs0 HS L p Hin) as [A [B C]]. split; [exact A|]. split; [exact B|].
       intro Hp. destruct (C Hp) as [_ [C2 C3]]. split; [cbn; discriminate | auto].
+    + intros r c Hin. specialize (g_pol0 r c Hin). cbn [cleanup_rec dec reported in_rungs]. unfold in_rung in *. cbn [cleanup_rec in_rungs].
+      destruct (pol cfg); auto. destruct g_pol0 as [H|[_ H]]; [left; exact H | right; split; [discriminate | exact H]].
 Qed.
 
 (* --- on_trial_complete ---------------------------------------------- *)
@@ -751,6 +778,13 @@ Proof.
     + cbn. discriminate.
     + intros HS L p Hin. destruct (g_rungs0 HS L p Hin) as [A [B C]]. split; [exact A|]. split; [exact B|].
       intro Hp. destruct (C Hp) as [C1 _]. congruence.
+    + intros L p Hin. apply (Hs2 L). eauto.
+    + intros r' c Hin. cbn [cleanup_pending obs] in Hin. cbn [cleanup_rec dec reported]. unfold in_rung. cbn [cleanup_rec in_rungs].
+      destruct (Hs1 r' c Hin) as [H|[-> [Hc [v' [Hr Hv]]]]].
+      * specialize (g_pol0 r' c H). unfold in_rung in g_pol0. destruct (pol cfg); auto.
+        destruct g_pol0 as [H0|[_ H0]]; [left; exact H0 | right; split; [discriminate | exact H0]].
+      * destruct (pol cfg); auto; right; [split; [discriminate|]|]; eauto.
+    + intros r' H H2. apply (Hs2 r'). auto.
 Qed.
 Lemma first_milestone_spec b :
   rungs_or_max (first_milestone cfg b) /\
@@ -796,6 +830,12 @@ Proof.
   - intros _. split; [discriminate|]. intro HS. rewrite HS. exists fm, None. split; [reflexivity|]. split; [lia|]. split; [exact Hfm|]. discriminate.
   - intro HS. rewrite HS. reflexivity.
   - intros _ L p [].
+  - intros L p [].
+  - intros L p [].
+  - discriminate.
+  - intros r c Hin. rewrite Ho in Hin. destruct (A1 r c Hin).
+  - intros r H. rewrite A3 in H. congruence.
+  - intros x H. lia.
 Qed.
 (* --- suggest -> resume (promotion) ----------------------------------- *)
 Lemma own_resume st t b : Inv st -> legal_b cfg st (Resume t b) = true ->
@@ -849,6 +889,18 @@ Proof.
     split; [exact A|]. split; [lia|]. intro Hp'. subst p'. exfalso.
     destruct (Z.eq_dec L' L) as [->|Hne]; [specialize (Hq1 eq_refl); discriminate|].
     specialize (Hq2 Hne). subst q. destruct (C eq_refl) as [_ [C2 _]]. lia.
+  - intros L' p' Hin. apply In_mark_promoted in Hin as [q [Hq _]]. destruct (g_in_le0 _ _ Hq). split; [assumption | lia].
+  - intros L' p' Hin. apply In_mark_promoted in Hin as [q [Hq _]]. unfold is_labeled. rewrite Ho. apply (g_in_lab0 _ _ Hq).
+  - discriminate.
+  - intros r c Hin. rewrite Ho in Hin. specialize (g_pol0 r c Hin). unfold in_rung in *. cbn [in_rungs].
+    rewrite in_rung_mark_promoted.
+    assert (HLin : existsb (fun e : Z * bool => fst e =? L) (in_rungs rec) = true).
+    { apply existsb_exists. exists (L, false). split; [exact HinL | cbn; lia]. }
+    destruct (pol cfg); auto.
+    + destruct g_pol0 as [H|[_ [v H]]]; [left; exact H|]. left. left. unfold hi in HhiL. rewrite H in HhiL. subst r. exact HLr.
+    + destruct g_pol0 as [H|[v H]]; [left; exact H|]. left. unfold hi in HhiL. rewrite H in HhiL. subst r. exact HLin.
+  - intros r H H2. unfold is_labeled. rewrite Ho. apply g_present0; assumption.
+  - intros x H. apply g_dense0. lia.
 Qed.
 (* --- on_trial_result -------------------------------------------------- *)
 Lemma rungs_or_max_le m : rungs_or_max m -> m <= max_t cfg.
@@ -864,7 +916,8 @@ Lemma otr_real s rp t rec r cont :
     (forall n, continues ti = true -> reached ti = true -> next_ms ti = Some n ->
                r < n /\ rungs_or_max n /\ forall m, MS rec m -> r < m -> n <= m) /\
     (sty cfg = Promotion -> rec1 = add_rung rec r -> continues ti = false) /\
-    (sty cfg = Promotion -> continues ti = true -> next_ms ti = None /\ exists ms rf, running rec = Some (ms, rf) /\ r < ms).
+    (sty cfg = Promotion -> continues ti = true -> next_ms ti = None /\ exists ms rf, running rec = Some (ms, rf) /\ r < ms) /\
+    (reached ti = true -> rec1 = add_rung rec r \/ max_t cfg <= r) /\ (reached ti = false -> rec1 = rec).
 Proof.
   intros G Hd Hr Hmax. destruct (g_run _ _ _ _ G Hd) as [Htb Hrun]. unfold on_task_report.
   destruct (task_bracket rec) as [b|] eqn:ETB; [|congruence]. destruct (r <? max_t cfg) eqn:ELT.
@@ -872,7 +925,8 @@ Proof.
       - unfold MS. destruct (sty cfg) eqn:HS.
         + exists b. split; [exact ETB | right; assumption].
         + destruct (Hrun eq_refl) as [ms [rf [E1 [E2 [E3 _]]]]]. pose proof (rungs_or_max_le _ E3). exists rf. rewrite E1. f_equal. f_equal. lia.
-      - right. assumption. }
+      - right. assumption.
+      - right. lia. }
   destruct (sty cfg) eqn:HS.
   - (* stopping *)
     assert (E0 : (r =? max_t cfg) = false) by lia. rewrite E0.
@@ -891,8 +945,8 @@ Proof.
       { intros n _ _ En. inversion En; subst n. split; [exact Hlt|]. split.
         - destruct Hnx as [->|H]; [right; reflexivity | left; apply in_rev in H; eapply In_skipn; eauto].
         - intros m HM Hm. unfold MS in HM. rewrite HS in HM. destruct HM as [b' [Eb HM]]. rewrite ETB in Eb. inversion Eb; subst b'. destruct HM as [HM| ->]; [apply Hleast; [apply -> in_rev; exact HM | exact Hm] | exact Hle]. }
-      split; discriminate.
-    + destruct (SB eq_refl) as [-> ->]. split; [left; reflexivity|]. repeat split; try discriminate.
+      split; [discriminate|]. split; [discriminate|]. split; [intros _; left; reflexivity | discriminate].
+    + destruct (SB eq_refl) as [-> ->]. split; [left; reflexivity|]. repeat split; try discriminate; auto.
   - (* promotion *)
     destruct (Hrun eq_refl) as [ms [rf [E1 [E2 [E3 E4]]]]]. rewrite E1.
     assert (Hign : match rf with Some f => r <=? f | None => false end = false).
@@ -906,6 +960,7 @@ Proof.
           destruct (g_rungs _ _ _ _ G HS _ _ Hp) as [_ [H _]]. lia. }
         rewrite ENR. do 2 eexists. split; [reflexivity|]. cbn. repeat split; auto; try discriminate.
       * do 2 eexists. split; [reflexivity|]. cbn. repeat split; auto; try discriminate.
+        intros _. right. destruct E3 as [H|H]; [apply mem_Z_In in H; congruence | lia].
     + do 2 eexists. split; [reflexivity|]. cbn. repeat split; auto; try discriminate.
       * intros _ Habs. exfalso. assert (in_rungs (add_rung rec r) = in_rungs rec) by (rewrite <- Habs; reflexivity).
         cbn in H. apply (f_equal (@length _)) in H. rewrite app_length in H. cbn in H. lia.
@@ -918,7 +973,8 @@ Lemma us_plan_spec rec r ti :
              r < p /\ (forall m, MS rec m -> r < m -> p <= m) /\ (pol cfg = Rungs -> rungs_or_max p)) /\
   (continues ti = false -> snd (us_plan cfg r ti) = []) /\
   (pol cfg <> Rungs -> fst (us_plan cfg r ti) = true) /\
-  (rungs_or_max r -> fst (us_plan cfg r ti) = true).
+  (rungs_or_max r -> fst (us_plan cfg r ti) = true) /\
+  (pol cfg = Rungs -> fst (us_plan cfg r ti) = true -> rungs_or_max r).
 Proof.
   intro Hv. unfold us_plan.
   assert (Hr1 : r < r + 1 /\ (forall m, MS rec m -> r < m -> r + 1 <= m)) by (split; [lia | intros; lia]).
@@ -929,8 +985,9 @@ Proof.
       { intros p Hin. destruct (continues ti) eqn:EC; cbn in Hin; [|destruct Hin].
         destruct (reached ti) eqn:ER; cbn in Hin; [|destruct Hin]. destruct (next_ms ti) as [n|] eqn:EN; [|destruct Hin].
         destruct Hin as [<-|[]]. destruct (Hv n eq_refl eq_refl eq_refl) as [A [B C]]. auto. }
-      split; [intros ->; reflexivity|]. split; [congruence | auto].
-    + split; [intros p []|]. split; [auto|]. split; [congruence|].
+      split; [intros ->; reflexivity|]. split; [congruence|]. split; [auto|]. intros _ _.
+      apply orb_true_iff in EM as [EM|EM]; [left; apply mem_Z_In; exact EM | right; lia].
+    + split; [intros p []|]. split; [auto|]. split; [congruence|]. split; [|discriminate].
       intros [H| ->]; [apply mem_Z_In in H; rewrite H in EM; discriminate | rewrite Z.eqb_refl, orb_true_r in EM; discriminate].
   - cbn [fst snd]. split.
     { intros p Hin. destruct (continues ti) eqn:EC; [|destruct Hin]. destruct (next_ms ti) as [n|] eqn:EN.
@@ -939,7 +996,7 @@ Proof.
         destruct (Hv n eq_refl eq_refl eq_refl) as [A [B C]]. split; [lia|]. split; [|discriminate].
         intros m HM Hm. specialize (C m HM Hm). lia.
       - destruct Hin as [<-|[]]. split; [lia|]. split; [apply Hr1 | discriminate]. }
-    split; [intros ->; reflexivity | auto].
+    split; [intros ->; reflexivity|]. split; [auto|]. split; [auto | discriminate].
   - cbn [fst snd]. split.
     { intros p Hin. destruct (continues ti) eqn:EC; [|destruct Hin]. destruct (next_ms ti) as [n|] eqn:EN.
       - destruct (myopic cfg); [destruct Hin as [<-|[]]; split; [lia|]; split; [apply Hr1 | discriminate]|].
@@ -947,21 +1004,32 @@ Proof.
         destruct (Hv n eq_refl eq_refl eq_refl) as [A [B C]]. split; [lia|]. split; [|discriminate].
         intros m HM Hm. specialize (C m HM Hm). lia.
       - destruct Hin as [<-|[]]. split; [lia|]. split; [apply Hr1 | discriminate]. }
-    split; [intros ->; reflexivity | auto].
+    split; [intros ->; reflexivity|]. split; [auto|]. split; [auto | discriminate].
 Qed.
 
 Lemma us_internal_spec s rp t rec :
   Good s rp t rec -> exists sa, us_internal cfg s rec t = Ok sa /\ pend sa = pend s /\ failed sa = failed s /\
-    (forall e, In e (obs sa) -> In e (obs s)) /\ (obs_nodup s -> obs_nodup sa).
+    (forall e, In e (obs sa) -> In e (obs s)) /\ (obs_nodup s -> obs_nodup sa) /\
+    (* what is removed: only the superseded latest level under rungs_and_last *)
+    (forall e, In e (obs s) -> In e (obs sa) \/
+       (pol cfg = RungsAndLast /\ exists r' v', reported rec = Some (r', v') /\ keep_case rec = false /\ fst e = (t, r'))) /\
+    (pol cfg = RungsAndLast -> forall r' v', reported rec = Some (r', v') -> keep_case rec = false ->
+       forall c, ~ In ((t, r'), c) (obs sa)).
 Proof.
-  intro G. unfold us_internal. destruct (pol cfg) eqn:EP; try (exists s; repeat split; auto; fail).
-  destruct (reported rec) as [[r' v']|] eqn:ER; [|exists s; repeat split; auto].
-  destruct (negb (keep_case rec)); [|exists s; repeat split; auto].
+  intro G. unfold us_internal. destruct (pol cfg) eqn:EP; try (exists s; repeat split; auto; discriminate).
+  destruct (reported rec) as [[r' v']|] eqn:ER; [|exists s; repeat split; auto; discriminate].
+  destruct (negb (keep_case rec)) eqn:EK.
+  2:{ exists s. repeat split; auto. intros _ r0 v0 E0 Hk. apply negb_false_iff in EK. congruence. }
   destruct (g_rep _ _ _ _ G r' v' ER) as [_ HL]. unfold remove_case. rewrite HL; [|congruence].
   eexists. split; [reflexivity|]. cbn. repeat split; auto.
   - intros e He. apply filter_In in He. tauto.
   - unfold obs_nodup. cbn. apply NoDup_map_filter.
+  - intros e He. destruct (key_eqb (t, r') (fst e)) eqn:EKey.
+    + right. split; [reflexivity|]. exists r', v'. apply key_eqb_eq in EKey. apply negb_true_iff in EK. auto.
+    + left. apply filter_In. split; [exact He | rewrite EKey; reflexivity].
+  - intros _ r0 v0 E0 _ c Hc. inversion E0; subst. apply filter_In in Hc as [_ Hc]. cbn in Hc. rewrite key_eqb_refl in Hc. discriminate.
 Qed.
+
 Lemma lur_step_spec rc r du : (forall l, lur rc = Some l -> l < r) ->
   lur_step rc r du = Ok (du, if du then set_lur rc (Some r) else rc).
 Proof.
@@ -988,15 +1056,15 @@ Proof.
   apply orb_true_iff in Hl as [HA|HB].
   - (* a level delivered for the first time *)
     apply andb_true_iff in HA as [HA1 HA2]. assert (Hr : r = hi rec + 1) by lia. assert (Hmax : r <= max_t cfg) by lia.
-    destruct (otr_real _ _ _ _ r cont G Hdec Hr Hmax) as [rec1 [ti [E [Hig [Hrec1 [H3 [H4 [H5 [H6 H7]]]]]]]]].
+    destruct (otr_real _ _ _ _ r cont G Hdec Hr Hmax) as [rec1 [ti [E [Hig [Hrec1 [H3 [H4 [H5 [H6 [H7 [H8 H9]]]]]]]]]]].
     rewrite E. cbn [bind]. rewrite Hig.
-    destruct (us_plan_spec rec r ti H5) as [HP1 [HP2 [HP3 HP4]]].
+    destruct (us_plan_spec rec r ti H5) as [HP1 [HP2 [HP3 [HP4 HP5]]]].
     unfold update_searcher. set (du := fst (us_plan cfg r ti)) in *. set (P := snd (us_plan cfg r ti)) in *.
     assert (Hui : us_internal cfg (srch st) rec1 t = us_internal cfg (srch st) rec t)
       by (destruct Hrec1 as [->|[-> _]]; reflexivity).
     assert (HSA : exists sa, (if du then us_internal cfg (srch st) rec1 t else Ok (srch st)) = Ok sa /\
               pend sa = pend (srch st) /\ (forall e, In e (obs sa) -> In e (obs (srch st))) /\ obs_nodup sa).
-    { destruct du; [|exists (srch st); auto]. rewrite Hui. destruct (us_internal_spec _ _ _ _ G) as [sa [A [B [_ [C D]]]]].
+    { destruct du; [|exists (srch st); auto]. rewrite Hui. destruct (us_internal_spec _ _ _ _ G) as [sa [A [B [_ [C [D _]]]]]].
       exists sa. auto. }
     destruct HSA as [sa [EA [Hpa [Hoa Hna]]]]. rewrite EA. cbn [bind].
     assert (Hnew : lookup_rep (t, r) (reps st) = None).
